@@ -548,7 +548,10 @@ def main(argv):
         "coverage": {
             "evaluations": merged.evaluations,
             "distinct_nontrivial": len(merged.nontrivial),
-            "rule": mod.RULE,
+            "rule": mod.RULE + (
+                " A drawn fraction of the cases runs through the command line (gaftools.__main__.main, every other call with "
+                "--debug) or with standard output captured instead of -o; see the via:* rows of the class table."
+                if any(c.startswith("via:") for c in merged.classes) else ""),
             "samples": merged.samples,
             "classes": dict(sorted(merged.classes.items())),
             "exhaustive_subspaces": merged.exhaustive,
